@@ -498,13 +498,14 @@ impl Request {
 #[cfg(ohkami_verif)]
 #[cfg(feature="__rt_native__")]
 impl Request {
-    /// verification hook: the private `read_payload`
-    pub(crate) async fn __verif_read_payload(
-        stream:        &mut (impl AsyncRead + Unpin),
-        remaining_buf: &[u8],
+    /// verification hook: the private `read_payload` (its future is handed out as it is: an `async`
+    /// wrapper would nest it in another state machine, which the model checker cannot see through)
+    pub(crate) fn __verif_read_payload<'a>(
+        stream:        &'a mut (impl AsyncRead + Unpin),
+        remaining_buf: &'a [u8],
         size:          usize,
-    ) -> CowSlice {
-        Self::read_payload(stream, remaining_buf, size).await
+    ) -> impl std::future::Future<Output = CowSlice> + 'a {
+        Self::read_payload(stream, remaining_buf, size)
     }
 }
 
